@@ -132,7 +132,14 @@ func lenOf(v value) value {
 
 func (i *interpreter) copySym(fr *frame, dst, src value, pos token.Pos) value {
 	n := minInt(i, lenOf(dst), lenOf(src))
-	if nn, ok := n.(int); ok && nn <= 4096 {
+	// Opaque (provenance-tracked) sources always transfer provenance, whether
+	// or not the length happens to be concrete: the representation must not
+	// depend on concreteness, so that concrete re-execution takes the same path.
+	opaque := false
+	if ss, ok := src.(*symslice); ok && (len(ss.obj.regions) > 0 || ss.obj.lost) {
+		opaque = true
+	}
+	if nn, ok := n.(int); ok && nn <= 4096 && !opaque {
 		for k := 0; k < nn; k++ {
 			i.writeElem(dst, k, i.readElem(src, k))
 		}
